@@ -45,6 +45,8 @@ class Context:
         self._impl = None
         self._model = None
         self.rng = random.Random(seed)
+        # files of /repo/src whose code differs from the tree the correspondence was last validated on (tools/check.py)
+        self.source_changed = []
 
     def seed_for(self, pid):
         h = hashlib.sha1(('%s:%d' % (pid, self.seed)).encode()).hexdigest()
@@ -245,6 +247,23 @@ def run_property(prop, ctx, broken=False):
         run_case(case)
         if len(res.violations) >= 3 or len(res.disagreements) >= 5:
             break
+    if ctx.source_changed and not broken and not res.violations and not res.disagreements and ctx.tier == 'quick':
+        # the source is not the one the model was last validated against: the quick sample says less than it does on the
+        # unchanged tree, so more of the same (implementation against model and oracle) within the same time budget again
+        t1 = time.time()
+        extra = 0
+        for _ in range(5 * n):
+            if time.time() - t1 > budget_s:
+                break
+            try:
+                case = next(it)
+            except StopIteration:
+                break
+            run_case(case)
+            extra += 1
+            if res.violations or len(res.disagreements) >= 5:
+                break
+        res.distribution['extended_cases_because_source_changed'] = extra
     if (broken or res.disagreements) and not res.violations:
         # failing-input search: the oracle alone, on the implementation, with a larger budget
         saved = ctx.model_ok
